@@ -7,7 +7,8 @@ from vlib import common as C
 from vlib import x_orders
 
 SCENARIOS = ['handoff_continuation', 'handoff_get', 'shared_moveout', 'shared_subscribers', 'strand_counter', 'when_all',
-             'when_any', 'pool_pipeline', 'handoff_race', 'strand_inline', 'strand_spawn', 'comutex', 'cosharedmutex', 'coawait']
+             'when_any', 'pool_pipeline', 'handoff_race', 'strand_inline', 'strand_spawn', 'comutex', 'cosharedmutex', 'coawait',
+             'waitgroup_late', 'waitgroup_two_doners', 'wait_two_producers']
 
 
 def extract():
